@@ -102,6 +102,11 @@ def h_svd_relations(V, sym, nd, seed, dtype, charged, lazy):
             V.check('svd:Uaxis/Vaxis-only-move-the-connecting-leg', close(U2, U.moveaxis(-1, 0)) and close(V2, Vh.moveaxis(0, -1)) and close(S2, S))
             Sv = yastn.svd(a, axes=(rows, cols), sU=sU, nU=nU, compute_uv=False)
             V.check('svd:compute_uv=False-gives-the-same-S', close(Sv, S))
+    out = V.outcome(yastn.svd, a, axes=splits(nd)[0], svd_on_cpu=True)
+    V.check('svd:svd_on_cpu-option-accepted-on-the-numpy-backend', out.exc is None)
+    if out.exc is None:
+        U0, S0, V0 = yastn.svd(a, axes=splits(nd)[0])
+        V.check('svd:svd_on_cpu-gives-the-same-factors', close(out.value[0], U0) and close(out.value[1], S0) and close(out.value[2], V0))
     V.check('operand-untouched', close(a, snap) and a.trans == snap.trans)
 
 
